@@ -13,32 +13,33 @@ import (
 // Ak[..] Array, Sk[..] Struct, Mk{..} Map, true/false/null).
 //
 // Sources (abbreviations used in the src column):
-//   C#-spec 12.10.3/12.10.4  C# language specification, integer division
-//                 ("rounds towards zero"; examples 5/3=1, -5/3=-1, 5/-3=-1,
-//                 -5/-3=1) and remainder ("x - (x / y) * y"; examples 5%3=2,
-//                 -5%3=-2, 5%-3=2, -5%-3=-2), which BigInteger.Divide /
-//                 BigInteger.Remainder document as their behaviour ("The sign
-//                 of the remainder is the sign of the dividend").
-//   C#-spec 12.11 shift operators: ">> on a signed operand is an arithmetic
-//                 shift (sign bit propagated)"; BigInteger.RightShift docs.
-//   .NET ModPow   BigInteger.ModPow docs: exponent < 0 ->
-//                 ArgumentOutOfRangeException, modulus == 0 ->
-//                 DivideByZeroException; result = value^exponent % modulus
-//                 with the sign rule of %.
-//   .NET Pow      BigInteger.Pow docs ("any value raised to 0 is 1").
-//   .NET ToByteArray / ctor  BigInteger(byte[]) / ToByteArray docs:
-//                 little-endian two's complement, minimal length, a positive
-//                 value with the top bit set gets an extra 0x00.
-//   NeoVM <OP>    the opcode's description in the NeoVM reference (OpCode.cs)
-//                 and the limits in ExecutionEngineLimits (MaxShift 256,
-//                 MaxItemSize 65535*2, MaxStackSize 2048,
-//                 MaxTryNestingDepth 16, MaxInvocationStackSize 1024,
-//                 MaxComparableSize 65536), Integer.MaxSize 32.
-//   neo-go #3612  upstream issue: MODPOW with a negative base and an odd
-//                 exponent must give the NEGATIVE residue as C# does
-//                 (e.g. (-1)^3 mod 3 = -1, not 2).
-//   neo-go Gorgon docs/node-configuration.md, hardfork table, "Gorgon".
-//   python        value computed independently with Python 3 (math.isqrt/pow).
+//
+//	C#-spec 12.10.3/12.10.4  C# language specification, integer division
+//	              ("rounds towards zero"; examples 5/3=1, -5/3=-1, 5/-3=-1,
+//	              -5/-3=1) and remainder ("x - (x / y) * y"; examples 5%3=2,
+//	              -5%3=-2, 5%-3=2, -5%-3=-2), which BigInteger.Divide /
+//	              BigInteger.Remainder document as their behaviour ("The sign
+//	              of the remainder is the sign of the dividend").
+//	C#-spec 12.11 shift operators: ">> on a signed operand is an arithmetic
+//	              shift (sign bit propagated)"; BigInteger.RightShift docs.
+//	.NET ModPow   BigInteger.ModPow docs: exponent < 0 ->
+//	              ArgumentOutOfRangeException, modulus == 0 ->
+//	              DivideByZeroException; result = value^exponent % modulus
+//	              with the sign rule of %.
+//	.NET Pow      BigInteger.Pow docs ("any value raised to 0 is 1").
+//	.NET ToByteArray / ctor  BigInteger(byte[]) / ToByteArray docs:
+//	              little-endian two's complement, minimal length, a positive
+//	              value with the top bit set gets an extra 0x00.
+//	NeoVM <OP>    the opcode's description in the NeoVM reference (OpCode.cs)
+//	              and the limits in ExecutionEngineLimits (MaxShift 256,
+//	              MaxItemSize 65535*2, MaxStackSize 2048,
+//	              MaxTryNestingDepth 16, MaxInvocationStackSize 1024,
+//	              MaxComparableSize 65536), Integer.MaxSize 32.
+//	neo-go #3612  upstream issue: MODPOW with a negative base and an odd
+//	              exponent must give the NEGATIVE residue as C# does
+//	              (e.g. (-1)^3 mod 3 = -1, not 2).
+//	neo-go Gorgon docs/node-configuration.md, hardfork table, "Gorgon".
+//	python        value computed independently with Python 3 (math.isqrt/pow).
 type fact struct {
 	name string
 	code []byte
